@@ -138,8 +138,56 @@ pub fn chk_families(t: &Tables, dir: &str, nshards: usize, seed: u64, stride: u6
         emit(&mut out, chk_event(t, &b, "D"), &mut n);
         counts[3] += 1;
     }
+    // family E: a king whose every neighbouring square holds one of its own men, and one enemy man beyond the wall - on each
+    // of the knight's squares (check: a knight does not come in over a neighbour) and on a few squares from which a slider
+    // looks at the wall (no check)
+    let mut n_e = 0u64;
+    for c in 0..2u32 {
+        let enemy = 1 - c;
+        for ks in 1..=64u32 {
+            let (kf, kr) = (((ks - 1) % 8) as i32, ((ks - 1) / 8) as i32);
+            let mut wall: Vec<(u32, u32)> = Vec::new();
+            for (df, dr) in [(1, 0), (-1, 0), (0, 1), (0, -1), (1, 1), (1, -1), (-1, 1), (-1, -1)] {
+                let (f, r) = (kf + df, kr + dr);
+                if (0..8).contains(&f) && (0..8).contains(&r) {
+                    let kinds: &[u32] = if r == 0 || r == 7 { &[2, 3, 4, 5] } else { &[1, 1, 2, 3, 4, 5] };
+                    wall.push(((8 * r + f + 1) as u32, kinds[rng.gen_range(0..kinds.len())] + 6 * c));
+                }
+            }
+            let mut outside: Vec<(u32, u32)> = Vec::new();
+            for (df, dr) in [(1, 2), (2, 1), (-1, 2), (-2, 1), (1, -2), (2, -1), (-1, -2), (-2, -1)] {
+                let (f, r) = (kf + df, kr + dr);
+                if (0..8).contains(&f) && (0..8).contains(&r) {
+                    outside.push(((8 * r + f + 1) as u32, 2 + 6 * enemy));
+                }
+            }
+            for _ in 0..3 {
+                let a = rng.gen_range(1..=64u32);
+                let (af, ar) = (((a - 1) % 8) as i32, ((a - 1) / 8) as i32);
+                if (af - kf).abs() <= 1 && (ar - kr).abs() <= 1 {
+                    continue;
+                }
+                outside.push((a, [3u32, 4, 5, 2][rng.gen_range(0..4)] + 6 * enemy));
+            }
+            for (a, pc) in outside {
+                let mut ek;
+                loop {
+                    ek = rng.gen_range(1..=64u32);
+                    let (ef, er) = (((ek - 1) % 8) as i32, ((ek - 1) / 8) as i32);
+                    if ek != a && ((ef - kf).abs() > 1 || (er - kr).abs() > 1) {
+                        break;
+                    }
+                }
+                let mut pcs = vec![(ks, 6 + 6 * c), (ek, 6 + 6 * enemy), (a, pc)];
+                pcs.extend(wall.iter().cloned());
+                let b = board_from(t, &pcs, c, 0, 0);
+                emit(&mut out, chk_event(t, &b, "E"), &mut n);
+                n_e += 1;
+            }
+        }
+    }
     out.finish();
-    json!({"events": n, "family_A": counts[0], "family_B": counts[1], "family_C": counts[2], "family_D": counts[3],
+    json!({"events": n, "family_A": counts[0], "family_B": counts[1], "family_C": counts[2], "family_D": counts[3], "family_E": n_e,
            "stride": stride, "exhaustive": stride == 1})
 }
 
